@@ -940,7 +940,19 @@ func init() {
 	})
 	reg("esds", func(t *rapid.T, _ int) boxR {
 		return boxR{B: []harness.HexBytes{rapid.OneOf(rapid.SampledFrom([]harness.HexBytes{{0x11, 0x90}, {0x12, 0x10}, {0x13, 0x10, 0x56, 0xe5, 0x98}}),
-			rapid.Map(rapid.SliceOfN(rapid.Byte(), 0, 100), func(b []byte) harness.HexBytes { return b })).Draw(t, "decConfig")}}
+			rapid.Map(rapid.SliceOfN(rapid.Byte(), 0, 100), func(b []byte) harness.HexBytes { return b }),
+			// decoder specific infos around the lengths at which the size field of a descriptor needs a second and a
+			// third 7-bit group (the info itself at 128; the decoder config descriptor around it 15 bytes earlier, the ES
+			// descriptor another 8 or so; 16384 for the third group)
+			rapid.Custom(func(t *rapid.T) harness.HexBytes {
+				n := rapid.SampledFrom([]int{100, 104, 105, 106, 110, 111, 112, 113, 114, 126, 127, 128, 129, 130, 255, 256, 300, 16360, 16383, 16384, 16400}).Draw(t, "dsiLen")
+				b := make([]byte, n)
+				x := rapid.Byte().Draw(t, "dsiFill")
+				for i := range b {
+					b[i] = x + byte(i*7)
+				}
+				return b
+			})).Draw(t, "decConfig")}}
 	}, func(r *boxR) (mp4.Box, error) { return mp4.CreateEsdsBox(r.b(0)), nil })
 	reg("dac3", func(t *rapid.T, _ int) boxR {
 		return boxR{N: []int64{int64(rapid.IntRange(0, 3).Draw(t, "fscod")), int64(rapid.IntRange(0, 31).Draw(t, "bsid")), int64(rapid.IntRange(0, 7).Draw(t, "bsmod")),
